@@ -698,7 +698,113 @@ func scenarioOrder(seed int64, idle, frame time.Duration) *verdict {
 	return w.finish(v, 0, 8*time.Second)
 }
 
+// scenarioConcurrent: 4-16 well-behaved clients (they all keep reading) work concurrently in two shared sessions with
+// every module loaded and the production decorators: every request must complete, and (built with -race) no access
+// to shared state may be unsynchronised (C09)
+func scenarioConcurrent(seed int64, idle, frame time.Duration) *verdict {
+	w := newWorld(seed, 5*time.Second, frame)
+	k := 4 + w.r.Intn(13)
+	var wg sync.WaitGroup
+	var clients []*client
+	sids := []string{w.sidA}
+	sidB, _, _ := w.w3.join("")
+	_ = sidB
+	var mu sync.Mutex
+	for i := 0; i < k; i++ {
+		c := w.s.dial(fmt.Sprintf("c%d", i), true)
+		clients = append(clients, c)
+		w.all = append(w.all, c)
+	}
+	stopAt := time.Now().Add(1500 * time.Millisecond)
+	for i, c := range clients {
+		wg.Add(1)
+		go func(i int, c *client) {
+			defer wg.Done()
+			r := rand.New(rand.NewSource(seed*100 + int64(i)))
+			mu.Lock()
+			sid := sids[r.Intn(len(sids))]
+			mu.Unlock()
+			if r.Intn(4) == 0 {
+				sid = ""
+			}
+			got, _, _ := c.join(sid)
+			if sid == "" && got != "" {
+				mu.Lock()
+				sids = append(sids, got)
+				mu.Unlock()
+			}
+			var eids []uint32
+			for time.Now().Before(stopAt) {
+				switch r.Intn(14) {
+				case 0:
+					if e, ok := c.addEntity(); ok {
+						eids = append(eids, e)
+					}
+				case 1, 2:
+					if len(eids) > 0 {
+						c.send(&hagallpb.EntityUpdatePose{Type: hagallpb.MsgType_MSG_TYPE_ENTITY_UPDATE_POSE, Timestamp: now(), EntityId: eids[r.Intn(len(eids))], Pose: &hagallpb.Pose{Px: r.Float32()}})
+					}
+				case 3:
+					c.send(&hagallpb.EntityComponentTypeAddRequest{Type: hagallpb.MsgType_MSG_TYPE_ENTITY_COMPONENT_TYPE_ADD_REQUEST, Timestamp: now(), RequestId: rid(), EntityComponentTypeName: fmt.Sprintf("t%d", r.Intn(3))})
+				case 4:
+					c.send(&hagallpb.EntityComponentTypeSubscribeRequest{Type: hagallpb.MsgType_MSG_TYPE_ENTITY_COMPONENT_TYPE_SUBSCRIBE_REQUEST, Timestamp: now(), RequestId: rid(), EntityComponentTypeId: uint32(1 + r.Intn(3))})
+				case 5:
+					if len(eids) > 0 {
+						c.send(&hagallpb.EntityComponentAddRequest{Type: hagallpb.MsgType_MSG_TYPE_ENTITY_COMPONENT_ADD_REQUEST, Timestamp: now(), RequestId: rid(), EntityComponentTypeId: uint32(1 + r.Intn(3)), EntityId: eids[r.Intn(len(eids))], Data: []byte{1}})
+					}
+				case 6:
+					if len(eids) > 0 {
+						c.send(&hagallpb.EntityComponentUpdate{Type: hagallpb.MsgType_MSG_TYPE_ENTITY_COMPONENT_UPDATE, Timestamp: now(), EntityComponentTypeId: uint32(1 + r.Intn(3)), EntityId: eids[r.Intn(len(eids))], Data: []byte{2}})
+					}
+				case 7:
+					c.send(&hagallpb.CustomMessage{Type: hagallpb.MsgType_MSG_TYPE_CUSTOM_MESSAGE, Timestamp: now(), Body: []byte("hello")})
+				case 8:
+					if len(eids) > 0 {
+						c.send(&vikjapb.EntityActionRequest{Type: vikjapb.MsgType_MSG_TYPE_VIKJA_ENTITY_ACTION_REQUEST, Timestamp: now(), RequestId: rid(),
+							EntityAction: &vikjapb.EntityAction{EntityId: eids[r.Intn(len(eids))], Name: "a", Timestamp: now()}})
+					}
+				case 9:
+					if len(eids) > 0 {
+						c.send(&odalpb.AssetInstanceAddRequest{Type: odalpb.MsgType_MSG_TYPE_ODAL_ASSET_INSTANCE_ADD_REQUEST, Timestamp: now(), RequestId: rid(), AssetId: "asset", EntityId: eids[r.Intn(len(eids))]})
+					}
+				case 10:
+					x, z := float32(r.Intn(20)), float32(r.Intn(20))
+					c.send(&dagazpb.DagazQuadSample{Type: dagazpb.MsgType_MSG_TYPE_DAGAZ_QUAD_SAMPLE, Timestamp: now(), Samples: []*dagazpb.Quad{{Center: &dagazpb.Point{X: x, Z: z}, Extents: &dagazpb.Point{X: 1, Z: 1}}}})
+				case 11:
+					c.send(&dagazpb.DagazGetRegionRequest{Type: dagazpb.MsgType_MSG_TYPE_DAGAZ_GET_REGION_REQUEST, Timestamp: now(), RequestId: rid(), Min: &dagazpb.Point{X: -50, Z: -50}, Max: &dagazpb.Point{X: 50, Z: 50}})
+				case 12:
+					if len(eids) > 0 && r.Intn(3) == 0 {
+						c.send(&hagallpb.EntityDeleteRequest{Type: hagallpb.MsgType_MSG_TYPE_ENTITY_DELETE_REQUEST, Timestamp: now(), RequestId: rid(), EntityId: eids[0]})
+						eids = eids[1:]
+					}
+				default:
+					if r.Intn(6) == 0 { // switch session
+						mu.Lock()
+						sid := sids[r.Intn(len(sids))]
+						mu.Unlock()
+						c.join(sid)
+						eids = nil
+					}
+				}
+				if r.Intn(3) == 0 {
+					time.Sleep(time.Duration(r.Intn(3)) * time.Millisecond)
+				}
+			}
+		}(i, c)
+	}
+	wg.Wait()
+	var v *verdict
+	for i, c := range clients {
+		if !c.ping(4 * time.Second) {
+			v = &verdict{"request-never-completes", fmt.Sprintf("client %d of %d got no ping response within 4 s after the concurrent phase; server goroutines: %s", i, k, leftoverStacks())}
+			break
+		}
+	}
+	return w.finish(v, 0, 8*time.Second)
+}
+
 var scenarios = map[string]func(int64, time.Duration, time.Duration) *verdict{
+	"concurrent": scenarioConcurrent,
 	"order": scenarioOrder,
 	"malformed": scenarioMalformed, "fields": scenarioFields, "burst": scenarioBurst, "abrupt": scenarioAbrupt,
 	"stall-chatty": scenarioStallChatty, "stall-silent": scenarioStallSilent, "idle": scenarioIdle,
